@@ -61,6 +61,9 @@ SPECS = {
     'usdf': [['USD', 'f:1.0000005', 'i:1'], ['JPY', 'f:8.5000015', 'i:1']],
     # unit multiples that are no power of ten, rates below 1/10
     'odd5': [['USD', 'D:0.3', 'i:5'], ['JPY', 'F:2/100', 'i:25']],
+    # a rate above 10**6: its inverse is below the smallest amount a rate
+    # can hold, so only look-ups from the base currency can be answered
+    'big': [['JPY', 'i:1250000', 'i:1'], ['USD', 'D:1.5', 'i:1']],
 }
 S_QUICK = ['usd11', 'jpy', 'usdstr', 'ok+bad']
 S_ALL = list(SPECS)
@@ -277,6 +280,14 @@ def lookups(conv, model, cell, hist, st):
                     tag = f'C11:get_rate:{exp[0]}'
                     if err is not None:
                         fp.append(('exc', type(err).__name__))
+                        if isinstance(err, ValueError) and (
+                                (exp[0] == 'inverse'
+                                 and 1 / exp[1] < F(1, 10 ** 6))
+                                or (exp[0] == 'cross'
+                                    and exp[2] / exp[1] < F(1, 10 ** 6))):
+                            # a rate below 10**-6 cannot be represented
+                            # (C09): refusing it is the known limit
+                            continue
                         if hist is not None:
                             out.append((tag + ':raises', f"{where} raised "
                                         f"{type(err).__name__}: {err}"))
